@@ -65,8 +65,11 @@ TrCatchUp == IsEvent("CatchUp") /\ LET e == Trace[l] IN CatchUp(e.r, e.p, e.afte
 TrAnnounce == IsEvent("Announce") /\ LET e == Trace[l] IN Announce(e.p, e.r, e.i, e.start) /\ Saw(e.r, e)
 TrTamper == IsEvent("Tamper") /\ LET e == Trace[l] IN Tamper(e.r, e.kind, e.other, e.a, Cs(e)) /\ Saw(e.r, e)
 
+TrAddBatchTail == IsEvent("AddBatchTail") /\ LET e == Trace[l] IN
+                     AddBatchTail(e.r, e.i, e.j, e.kind, e.other, e.a, Cs(e)) /\ Saw(e.r, e)
+
 TraceNext == TrConfig \/ TrAccept \/ TrRefused \/ TrAddOne \/ TrAddBatch \/ TrRestart \/ TrMigrated
-             \/ TrBootstrap \/ TrCatchUp \/ TrAnnounce \/ TrTamper
+             \/ TrBootstrap \/ TrCatchUp \/ TrAnnounce \/ TrTamper \/ TrAddBatchTail
 TraceSpec == TraceInit /\ [][TraceNext]_tvars
 
 \* the invariants of the design evaluated on what the real lists showed
